@@ -72,6 +72,21 @@ Theorem C20_greedy_no_worse : forall fixed o n order L0 L bags fuel sel loss,
 Proof. exact greedy_no_worse. Qed.
 Print Assumptions C20_greedy_no_worse.
 
+(* several select() calls on ONE selector object: the only state that survives a call is the position of the RandomState,
+   i.e. which bootstrap draws the next call sees.  Without bagging the draws are never consulted - the answer is a function
+   of the call's own inputs (no dependence on earlier calls); with bagging a call that starts [off] draws into the stream
+   is the call on the shifted stream, so every theorem above applies to it (they hold for every stream). *)
+Theorem C20_greedy_stateless : forall fixed o n order L0 L bags bags' fuel,
+  o_bag o = false -> greedy fixed o n order L0 L bags fuel = greedy fixed o n order L0 L bags' fuel.
+Proof. exact greedy_stateless. Qed.
+Print Assumptions C20_greedy_stateless.
+
+Theorem C20_greedy_stream_position : forall fixed o n L bags off fuel it sel lmin,
+  o_maxit o = None ->
+  loop fixed o n L bags fuel (off + it) sel lmin = loop fixed o n L (fun j => bags (off + j)) fuel it sel lmin.
+Proof. exact loop_shift. Qed.
+Print Assumptions C20_greedy_stream_position.
+
 (* every accepted step picks an admissible candidate, a minimal one, and (with early stopping) lowers the loss by more than eps_tol *)
 Theorem C20_greedy_step : forall o n sel lmin bag cand i l,
   step o n sel lmin bag cand = SAdd i l ->
@@ -85,6 +100,13 @@ Theorem C20_order_by_id : forall (A : Type) (subm done : list (Z * A)),
   StronglySorted Z.lt (map fst subm) -> Permutation done subm -> order_by_id done = subm.
 Proof. exact order_by_id_restores. Qed.
 Print Assumptions C20_order_by_id.
+
+(* several calls on ONE ensemble: whatever the number [base] of jobs submitted by the earlier calls, the members'
+   predictions come back in member order for every completion order of the call *)
+Theorem C20_order_by_id_calls : forall (A : Type) (base : Z) (xs : list A) (done : list (Z * A)),
+  Permutation done (numbered base xs) -> map snd (order_by_id done) = xs.
+Proof. exact @order_by_id_calls. Qed.
+Print Assumptions C20_order_by_id_calls.
 
 (* the ids must be compared as INTEGERS: with the decimal strings of the job numbers 9, 10, 11 (4th call of a 3-member
    ensemble, or any ensemble of more than 10 members) the same sort returns the members in the order 1, 2, 0 *)
